@@ -15,12 +15,14 @@ Driver ops for the multiword Montgomery ring and M128 (C07). Request lines:
   mint_lt xs ns sz              -> true|false              (xs, ns word lists)
   mint_add xs ys sz             -> word list
   mint_sub xs ys sz             -> word list               (xs: 8 words)
+  mg_inv n ninv r2 x            -> none | some r           (64-bit `mg_inv`; lives here because Drv/Mg64.lean is shared)
   m128_inv_2adic n | m128_r_r2 n ninv (-> r r2) | m128_add n x y | m128_sub n x y | m128_mul n ninv x y
 `panic` whenever the model returns `none`.
 -/
 import Ymq.Drv.Util
 import Ymq.Model.ZmodN
 import Ymq.Model.M128
+import Ymq.Model.Mg64Inv
 
 namespace Ymq.Drv
 open Ymq.Limbs Ymq.ZmodN
@@ -89,6 +91,12 @@ def handleZmodN : Handler
   | ["mint_sub", xs, ys, sz] => do
     let xs ← parseNatList xs; let ys ← parseNatList ys; let sz ← parseNat sz
     some (match mintSub xs ys sz with | none => "panic" | some l => showList l)
+  | ["mg_inv", n, ninv, r2, x] => do
+    let n ← parseNat n; let ninv ← parseNat ninv; let r2 ← parseNat r2; let x ← parseNat x
+    some (match Ymq.Mg64.mgInv n ninv r2 x with
+      | none => "panic"
+      | some none => "none"
+      | some (some r) => s!"some {r}")
   | ["m128_inv_2adic", n] => do
     let n ← parseNat n
     some (showON (Ymq.M128.inv2adic n))
